@@ -244,6 +244,7 @@ def cases(rng, tier):
             continue
         c["k"] = 1 + int(c["kfrac"] * total) % total
         c["total_calls"] = total
+        c["exc_class"] = EXC_CLASSES[n % len(EXC_CLASSES)]          # every class equally often
         n += 1
         yield c
 
